@@ -151,6 +151,43 @@ pub fn deliver_at(buffers: &Buffers, mut packet: Packet, at_us: u64, shared: &Ne
     });
 }
 
+/// Puts a datagram straight into an endpoint's receive queue (attacker / stray traffic that does not
+/// come from any endpoint's socket) and logs it as injected.
+pub fn inject(shared: &NetShared, src: SocketAddr, dst: SocketAddr, payload: Vec<u8>) {
+    let (buffers, server) = {
+        let st = shared.lock().unwrap();
+        (st.buffers.clone(), st.server_addr)
+    };
+    let Some(buffers) = buffers else { return };
+    let t_us = now_us();
+    let packet = Packet {
+        path: s2n_quic_core::path::Tuple { remote_address: SocketAddress::from(src).into(), local_address: SocketAddress::from(dst).into() },
+        ecn: Default::default(),
+        payload: payload.clone(),
+    };
+    let mut arrived = false;
+    buffers.rx(SocketAddress::from(dst), |queue| {
+        queue.enqueue(packet);
+        arrived = true;
+    });
+    let mut st = shared.lock().unwrap();
+    let dir = if Some(dst) == server { Dir::Up } else { Dir::Down };
+    st.log.push(NetRec {
+        t_us,
+        src,
+        dst,
+        len: payload.len(),
+        dir,
+        idx: u32::MAX,
+        fate: Fate::Delivered,
+        deliveries_us: if arrived { vec![t_us] } else { vec![] },
+        hash: vcore::hash_of(&payload),
+        payload: Arc::new(payload),
+        intact: true,
+        injected: true,
+    });
+}
+
 impl Network for ScriptedNet {
     fn execute(&mut self, buffers: &Buffers) -> usize {
         let mut packets: Vec<Packet> = vec![];
